@@ -284,7 +284,7 @@ def run_case(case, work, rec):
         if a.get("lv") == b.get("lv") and (a.get("box") == b.get("box") or
                                            {a["op"], b["op"]} & {"idxline_delete", "fod_delete", "box_delete_consistent",
                                                                  "insert", "remove", "fabhdr", "fabhdr_text", "truncate",
-                                                                 "extend", "delete_file", "cellh_text", "swap_entries"}):
+                                                                 "extend", "delete_file", "file_to_dir", "cellh_text", "swap_entries"}):
             continue
         one([a, b], [ka, kb])
 
